@@ -91,6 +91,9 @@ static void srv_build_answer_rrs(sdns_out_t *o, const sdns_query_t *q, uint32_t 
   }
   for (k = 0; k < nrec; k++) {
     size_t at;
+    if (o->len > 65000) {
+      break; /* a DNS message cannot exceed 65535 bytes */
+    }
     switch (qt) {
       case SDNS_T_A:
       case SDNS_T_AAAA:
@@ -378,6 +381,9 @@ static int64_t srv_delay_us(const vsrv_t *s)
   if (s->delay_max_ms > s->delay_min_ms) {
     ms += vh_below(&sim_rng, (uint32_t)(s->delay_max_ms - s->delay_min_ms + 1));
   }
+  if (sim_no_subms_jitter) {
+    return ms * 1000;
+  }
   return ms * 1000 + (int64_t)vh_below(&sim_rng, 1000);
 }
 
@@ -538,7 +544,7 @@ static void srv_receive(int srvidx, int fd, int is_tcp, const uint8_t *msg, size
       break;
   }
   serial = srv_build(srvidx, fd, &q, &pl, &srv_out, txidx, ck, cklen);
-  if (srv_out.overflow) {
+  if (srv_out.overflow || srv_out.len > 65535) {
     return;
   }
   srv_send_pkt(srvidx, fd, is_tcp, srv_out.b, srv_out.len, serial, d, pl.action == SA_WRONGADDR ? -1 : srvidx);
